@@ -3,6 +3,8 @@ import Np.Model.Basic
 import Np.Model.Multiply
 import Np.Model.CRat
 import Np.Model.Arr
+import Np.Model.Options
+import Np.Model.Index
 /-! line-protocol driver: one JSON case per line on stdin, the model's answer per line on stdout -/
 open Lean Np Np.Shape
 
@@ -73,6 +75,40 @@ partial def parseExpr (j : Json) : E Expr := do
     | _ => throw "bad expr op"
   | _ => throw "bad expr"
 
+def jKw (j : Json) : E (List (String × String)) := do
+  (← jList j).mapM fun kv => do
+    match ← jList kv with
+    | [k, v] => pure (← k.getStr?, ← v.getStr?)
+    | _ => throw "bad keyword pair"
+
+partial def parseStmt (j : Json) : E Opt.Stmt := do
+  let a ← jList j
+  match a with
+  | [] => throw "empty stmt"
+  | h :: rest =>
+    match (← h.getStr?), rest with
+    | "set", [kw] => pure (.set (← jKw kw))
+    | "with", [kw, body] => pure (.withBlock (← jKw kw) (← (← jList body).mapM parseStmt))
+    | "raise", [e] => pure (.raise (← e.getStr?))
+    | "try", [body] => pure (.tryCatch (← (← jList body).mapM parseStmt))
+    | "mut", [k, v] => pure (.mutateCopy (← k.getStr?) (← v.getStr?))
+    | "obs", [] => pure .observe
+    | _, _ => throw "bad stmt"
+
+def showOpts (o : Opt.Opts) : Json := Json.arr (o.map fun kv => Json.arr #[toJson kv.1, toJson kv.2]).toArray
+
+def jInts (j : Json) : E (List Int) := do (← jList j).mapM jInt
+def jNatRows (j : Json) : E (List (List Nat)) := do (← jList j).mapM jNats
+
+def parseNorm (j : Json) : E Index.Norm :=
+  match j with
+  | .str "zero" => pure .zero
+  | .str "inf" => pure .inf
+  | .arr a => do pure (.rat (← jNat a[0]!) (← jNat a[1]!))
+  | _ => throw "bad norm"
+
+def jBool (j : Json) (k : String) : E Bool := do (← j.getObjVal? k).getBool?
+
 def runCase (j : Json) : E Json := do
   let op ← (← j.getObjVal? "op").getStr?
   let opts := (j.getObjVal? "opts").toOption.getD (Json.mkObj [])
@@ -85,6 +121,32 @@ def runCase (j : Json) : E Json := do
     match evalModel rc rn env t with
     | .ok r => pure (showArr r)
     | .error e => pure (showErr e)
+  | "opts" =>
+    let init ← jKw (← j.getObjVal? "init")
+    let prog ← (← jList (← j.getObjVal? "prog")).mapM parseStmt
+    let r := Opt.exec prog init []
+    let outcome := match r.2.1 with | .normal => "normal" | .raised e => e
+    pure (Json.mkObj [("status", "ok"), ("kind", "opts"), ("final", showOpts r.1), ("outcome", outcome),
+      ("log", Json.arr (r.2.2.map showOpts).toArray)])
+  | "glexsort" =>
+    let cols ← jNatRows (← j.getObjVal? "cols")
+    pure (Json.mkObj [("status", "ok"), ("kind", "indices"),
+      ("value", toJson (Index.glexsort (← jBool j "graded") (← jBool j "reverse") cols))])
+  | "crosstrunc" =>
+    let rows ← jNatRows (← j.getObjVal? "rows")
+    let bound ← jInts (← j.getObjVal? "bound")
+    let norm ← parseNorm (← j.getObjVal? "norm")
+    pure (Json.mkObj [("status", "ok"), ("kind", "mask"),
+      ("value", toJson (rows.map fun x => Index.crossTruncate x bound norm))])
+  | "glexindex" =>
+    let start ← jInts (← j.getObjVal? "start")
+    let stop ← jInts (← j.getObjVal? "stop")
+    let ct0 ← parseNorm (← j.getObjVal? "ct0")
+    let ct1 ← parseNorm (← j.getObjVal? "ct1")
+    let r := match (j.getObjVal? "ordering").toOption with
+      | some (.str o) => Index.bindex false start stop ct0 ct1 o
+      | _ => Index.glexindex false start stop ct0 ct1 (jBoolD j "graded" false) (jBoolD j "reverse" false)
+    pure (Json.mkObj [("status", "ok"), ("kind", "rows"), ("value", toJson r)])
   | _ => throw s!"bad-op {op}"
 
 def step (line : String) : String :=
